@@ -105,6 +105,15 @@ func c12Mutate(stream []byte, payload []byte, mut string, k int) ([]byte, bool) 
 			}
 			return append(append(append([]byte(nil), s[:i]...), '-'), s[i:]...), true
 		}
+	case "trailer-lines":
+		// header-like lines between the terminating chunk's header and the empty line that ends
+		// the body: the framing of another payload type (…-PAYLOAD-TRAILER), not of this one
+		i := bytes.LastIndex(s, []byte("0;chunk-signature="))
+		if i < 0 || !bytes.HasSuffix(s, []byte("\r\n\r\n")) {
+			return s, false
+		}
+		lines := []string{"x-amz-checksum-crc32:AAAAAA==\r\n", "x-amz-checksum-sha256:47DEQpj8HBSa+/TImW+5JCeuQeRkm5NMpJWZG3hSuFU=\r\nx-amz-trailer-signature:" + oracle.Sig + "\r\n", "X-Amz-Meta-Late:1\r\n"}[k%3]
+		return append(append(append([]byte(nil), s[:len(s)-2]...), lines...), '\r', '\n'), true
 	case "chunk-longer-than-data":
 		// announce a first chunk that is longer than everything that follows
 		rest := s[bytes.IndexByte(s, ';'):]
@@ -122,7 +131,7 @@ func c12Mutate(stream []byte, payload []byte, mut string, k int) ([]byte, bool) 
 	return s, false
 }
 
-var c12Muts = []string{"signed-size", "blank-before-size", "signed-zero-terminator", "cut-after-data", "cut-after-data-crlf", "truncate", "bad-hex", "no-signature", "short-signature", "missing-crlf-after-header", "missing-crlf-after-data", "chunk-longer-than-data", "trailing-garbage", "no-final-chunk", "flip"}
+var c12Muts = []string{"trailer-lines", "signed-size", "blank-before-size", "signed-zero-terminator", "cut-after-data", "cut-after-data-crlf", "truncate", "bad-hex", "no-signature", "short-signature", "missing-crlf-after-header", "missing-crlf-after-data", "chunk-longer-than-data", "trailing-garbage", "no-final-chunk", "flip"}
 
 func c12Check(cs c12Case) (ds []disc) {
 	st := backends.Must(cs.Backend, backends.Options{StreamBuf: cs.StreamBuf})
@@ -402,7 +411,7 @@ func c12Run(t *testing.T, c *evid.Collector) {
 					continue
 				}
 				for _, fr := range []s3x.Frag{{Mode: "whole"}, {Mode: "n", N: 4096}} {
-					for _, m := range []string{"", "truncate", "no-final-chunk", "missing-crlf-after-data", "cut-after-data", "cut-after-data-crlf"} {
+					for _, m := range []string{"", "truncate", "no-final-chunk", "missing-crlf-after-data", "cut-after-data", "cut-after-data-crlf", "trailer-lines"} {
 						i++
 						if i%evid.Shards() != evid.Shard() {
 							continue
